@@ -436,11 +436,38 @@ class C14(Check):
     harness_sources = ['harness/serverloop.cpp', 'harness/serverloop_kernel.cpp']
     has_spec = False
     per_case_timeout = 6
-    level_text = ''
-    level_note = ''
-    technique = ''
-    rule = ''
-    assumptions = []
+    level_text = ('Theorems in Coq 8.16 about an executable model of Server::run, the epoll variant of Socket::Poll, the timer queue, the pools, '
+                  'the closing set and interrupt (coq/ServerLoop): for every fuel and every history of operations, callback behaviours, clocks, '
+                  'epoll results and send/recv/accept/SO_ERROR outcomes the log of the model is accepted by four monitors that are the reading of '
+                  'the property text (ServerLoopSpec: timers / life times, registrations and event kinds / failed read-write answered by onClosed / '
+                  'interrupt and run), and what acceptance means is proved on the raw log: the (n+1)-th activation of a timer is the one due at '
+                  'creation + (n+1)*interval, is not early, and no live timer is due earlier; no callback after remove() (also from inside callbacks and '
+                  'with a buffered event; Poll::set/remove prune); dispatched kinds are registered kinds; a failed read/write is followed by onClosed '
+                  'before the next wait/dispatch; run() returns only after interrupt(), and once interrupted the next wait is the last. '
+                  'The model is tied to the code by running the extracted model and the real Server (ASan/UBSan build of the working tree, '
+                  'kernel simulated by symbol interposition, private state read for the state line) on the same histories, line by line; '
+                  'the extracted monitors and an independent bounded-liveness oracle judge the implementation\'s own log.')
+    level_note = ('partial: eventual dispatch (liveness) only up to the kernel - a reported registered socket enters the buffer and the buffer is served '
+                  'head first, one event per iteration (eventual_dispatch_partial_*); termination of the timer/closing phases (intervals > 0, finite '
+                  'scripts) is not proved, the model ends such runs as stuck; "interrupt makes run() return" is the safety half (next wait is the last). '
+                  'Validated by correspondence only: insertion order among EQUAL due times; the 64-event limit of epoll_wait is outside the model '
+                  '(generators stay below it); DNS-resolver establishers, the Windows/poll() variants of Socket::Poll and real cross-thread timing of '
+                  'interrupt() (modelled as the flag being set at an arbitrary point: before run, from any callback, or while the loop waits) are not '
+                  'modelled. A client removed inside the onAccepted/onConnected that announces it while that callback still returns a callback object is '
+                  'contradictory use: the code keeps it and later reports onClosed; such cases are run for correspondence but not judged by the monitor. '
+                  'Trusted: Coq kernel, ServerLoopSpec (the monitors), extraction + OCaml driver, the harness and its simulated kernel.')
+    technique = 'Coq proof (invariants + monitor coupling by induction over fuel and histories) + extracted-model/monitor vs implementation correspondence on a simulated kernel'
+    rule = ('cases = histories of top-level operations (create/remove timers, clients, listeners, establishers; write/read/suspend/resume/interrupt/clock), '
+            'queued callback behaviours (remove others / self, create, write, read, suspend, interrupt) and run() calls with scripted epoll items; streams: '
+            'timers (up to 7 timers, equal due times, removal/creation from onActivated), pending (3..12 sockets ready in one round, victims removed or '
+            're-registered while their event is buffered), io (failed reads/writes, backlog, hang-ups, removal before the closing pass), interrupt '
+            '(before/during run, double), random, scope (exhaustive in the thorough tier: every sequence of <= 2 actions of a 12-action alphabet inside '
+            'an onRead callback x both epoll orders); non-trivial = the implementation made >= 2 callbacks inside a run(); distinct = distinct op text')
+    assumptions = ['level-triggered epoll: a ready registered descriptor and a readable event descriptor are reported by every epoll_wait (fairness of the simulated kernel)',
+                   'at most 63 ready sockets per epoll_wait (the 64-entry event array is not modelled)',
+                   'timer intervals > 0 and finite callback scripts for termination of a loop iteration (not needed for the safety theorems)',
+                   'remove() is not called on the client being announced by an onAccepted/onConnected that then returns a callback object for it',
+                   'identities of removed objects are never reused by the test (pool slots may be)']
 
     def __init__(self):
         Check.__init__(self)
